@@ -1473,14 +1473,24 @@ impl Vm {
     #[inline(always)]
     fn call_value(&mut self, value: Value, arg_count: usize) -> Result<(), Error> {
         match value {
+            // Overwriting the callee's stack slot may drop the last reference to the bound object,
+            // so nothing of it (not even a borrow guard) may be held while the call runs.
             Value::ObjBoundMethod(bound) => {
-                self.poke(arg_count, bound.borrow().receiver);
-                self.call_closure(bound.borrow().method, arg_count)
+                let (receiver, method) = {
+                    let bound = bound.borrow();
+                    (bound.receiver, bound.method)
+                };
+                self.poke(arg_count, receiver);
+                self.call_closure(method, arg_count)
             }
 
             Value::ObjBoundNative(bound) => {
-                self.poke(arg_count, bound.borrow().receiver);
-                self.call_native(bound.borrow().method, arg_count)
+                let (receiver, method) = {
+                    let bound = bound.borrow();
+                    (bound.receiver, bound.method)
+                };
+                self.poke(arg_count, receiver);
+                self.call_native(method, arg_count)
             }
 
             Value::ObjClosure(function) => self.call_closure(function, arg_count),
@@ -1517,9 +1527,10 @@ impl Vm {
         let receiver = self.peek(arg_count);
         let class = match receiver {
             Value::ObjInstance(instance) => {
-                if let Some(value) = instance.borrow().fields.get(&name) {
-                    self.poke(arg_count, *value);
-                    return self.call_value(*value, arg_count);
+                let field = instance.borrow().fields.get(&name).copied();
+                if let Some(value) = field {
+                    self.poke(arg_count, value);
+                    return self.call_value(value, arg_count);
                 }
                 instance.borrow().class
             }
